@@ -27,7 +27,7 @@ def pv(be, obj, n, fine=False):
     """project a library value to {t, terms}"""
     P = be.paulialg
     if fine:
-        c3 = lambda c: coef3(c, True)
+        c3 = lambda c: coef3(c, fine)
     else:
         c3 = coef3
     if isinstance(obj, numbers.Number) or (hasattr(obj, "ndim") and getattr(obj, "ndim", 1) == 0) or (hasattr(obj, "dim") and callable(obj.dim) and obj.dim() == 0):
@@ -141,6 +141,11 @@ class C15(Prop):
                     var.append(w + [self.rng.randrange(4)])
                 yield {"k": "wpoly", "nn": n_, "a": [[base + [0], 1, 0, 0]] + [[w, self.rng.choice((1, -1, 3)), self.rng.choice((0, 1)), 1] for w in var[:3]],
                        "b": [[w, self.rng.choice((1, 2, -1)), 0, 0] for w in var[2:]] + [[base + [2], 1, 0, 1]]}
+        # a large part that cancels exactly, leaving a small remainder: (A + B) - B = A with |B| / |A| up to 2^39
+        for big in (4096, 2 ** 20, 1):
+            for sh in (27, 19, 12):
+                for j in range(3):
+                    yield {"k": "cancel", "big": big, "sh": sh, "j": j, "pkg": "py"}
         # arithmetic on stabilizer states = polynomial arithmetic on their density-matrix expansion (itself judged under C19)
         for r in (0, 1, 2):
             for i in sorted(self.pool):
@@ -228,6 +233,27 @@ class C15(Prop):
                 except Exception as e:
                     rec["exc"] = _exc(e)
                     rec.setdefault("E", 8)
+                out.append(rec)
+            return out
+        if scn["k"] == "cancel":
+            strs = [[1, 3, 0], [2, 0, 0], [0, 0, 0], [3, 3, 2]]
+            sh = scn["sh"]
+            a_terms = [[strs[(scn["j"] + t) % 4], (1, -3, 5)[t], (0, 1, 0)[t], sh] for t in range(3)]
+            out = []
+            for order in ("ab", "ba", "num"):
+                rec = {"op": "cancel", "n": n, "big": scn["big"], "order": order, "E": sh}
+                try:
+                    A = mk(be, "Q", a_terms)
+                    rec["x"] = pv(be, A, n, fine=sh)
+                    if order == "num":
+                        r = (A + float(scn["big"])) - float(scn["big"])           # a multiple of the identity added and removed
+                    else:
+                        B = mk(be, "Q", [[strs[(scn["j"] + t) % 4][:-1] + [0], scn["big"], 0, 0] for t in range(2)] + [[[2, 2, 0], scn["big"], 0, 0]])
+                        r = ((A + B) if order == "ab" else (B + A)) - B
+                    rec["ret"] = pv(be, r, n, fine=sh)
+                    rec["x1"] = pv(be, A, n, fine=sh)
+                except Exception as e:
+                    rec["exc"] = _exc(e)
                 out.append(rec)
             return out
         if scn["k"] == "rho":
